@@ -119,6 +119,21 @@ CLASSES = {
             "_execute_graph_impl": {"pure": False, "returns": OBJ("GraphState"), "raises": ["Exception"]},
         },
     },
+    "AsyncRunnerTemplate": {
+        "module": "hypergraph.runners._shared.template_async", "file": "runners/_shared/template_async.py",
+        "attrs": {"default_max_iterations": INT, "capabilities": ANY, "supported_node_types": ANY},
+        "methods": {
+            "_create_dispatcher": {"pure": False, "returns": OBJ("EventDispatcher"), "raises": []},
+            "_emit_run_start_async": {"pure": False, "returns": FIXTUP(STR, STR), "raises": []},
+            "_emit_run_end_async": {"pure": False, "returns": NONE_T, "raises": []},
+            "_shutdown_dispatcher_async": {"pure": False, "returns": NONE_T, "raises": []},
+            "_execute_graph_impl_async": {"pure": False, "returns": OBJ("GraphState"), "raises": ["Exception", "PauseExecution"]},
+            "_get_concurrency_limiter": {"pure": False, "returns": ANY, "raises": []},
+            "_set_concurrency_limiter": {"pure": False, "returns": ANY, "raises": []},
+            "_reset_concurrency_limiter": {"pure": False, "returns": NONE_T, "raises": []},
+        },
+    },
+    "PauseExecution": {"module": "hypergraph.runners._shared.types", "file": "runners/_shared/types.py", "attrs": {"pause_info": ANY, "_partial_state": ANY}, "methods": {}},
     "EventDispatcher": {
         "module": "hypergraph.events.dispatcher", "file": "events/dispatcher.py",
         "attrs": {"active": BOOL, "_processors": SEQ(ANY), "_strict": BOOL},
